@@ -22,6 +22,7 @@ const (
 	idFill0   = 7
 	valNone   = math.MinInt32 + 1 // model value standing for None
 	maxFiller = 16
+	idKX      = idFill0 + maxFiller // the host key kx: never part of an operand, inserted to tell aliases apart
 )
 
 var keySrc = [7]string{"k0", "k1", "k2", "k3", "k4", `"zz"`, `"yy"`}
@@ -45,6 +46,7 @@ type sexp struct {
 	opkey  string // names the derived operation for the violation key ("" = plain history step)
 	dup    bool   // the operand was a non-set iterable with repeated elements
 	binds  bool   // the derived value was bound to a variable the rest of the sequence uses
+	alias  string // non-empty: this check belongs to the aliasing oracle of the named derived operation
 	line   string
 }
 
@@ -58,10 +60,11 @@ type sgen struct {
 	nkeys int
 	nv    int32
 	nfill int
+	alias string // copied into every expectation emitted while set
 }
 
 func newSgen(kind int, r *rand.Rand) *sgen {
-	return &sgen{kind: kind, r: r, nkeys: idFill0 + maxFiller, seq: -1}
+	return &sgen{kind: kind, r: r, nkeys: idKX + 1, seq: -1}
 }
 
 func (g *sgen) newModel() *model { return newModel(g.nkeys) }
@@ -127,7 +130,7 @@ func (g *sgen) views(x string) string {
 // checkState emits check(i, x, r, views) expecting collection x to equal m and r to equal res.
 func (g *sgen) checkState(x string, m *model, rsrc string, res rexp, line string) {
 	o, v := snap(m)
-	g.exps = append(g.exps, sexp{seq: g.seq, coll: true, order: o, vals: v, res: res, line: line})
+	g.exps = append(g.exps, sexp{seq: g.seq, coll: true, order: o, vals: v, res: res, line: line, alias: g.alias})
 	// two calls: the collection is first walked by the host with a bound (a corrupted order list may be
 	// cyclic); only then is it iterated by Starlark code
 	g.stmt("check(%d, %s, %s)", len(g.exps)-1, x, rsrc)
@@ -136,14 +139,14 @@ func (g *sgen) checkState(x string, m *model, rsrc string, res rexp, line string
 
 // checkValue emits check(i, None, expr) for a derived value.
 func (g *sgen) checkValue(expr string, res rexp, opkey string, dup bool) {
-	g.exps = append(g.exps, sexp{seq: g.seq, res: res, opkey: opkey, dup: dup, line: expr})
+	g.exps = append(g.exps, sexp{seq: g.seq, res: res, opkey: opkey, dup: dup, line: expr, alias: g.alias})
 	g.stmt("check(%d, None, %s)", len(g.exps)-1, expr)
 }
 
 // checkFails emits fails(i, x, lambda: expr).
 func (g *sgen) checkFails(x string, m *model, expr, errSub string) {
 	o, v := snap(m)
-	g.exps = append(g.exps, sexp{seq: g.seq, coll: true, order: o, vals: v, errSub: errSub, line: expr})
+	g.exps = append(g.exps, sexp{seq: g.seq, coll: true, order: o, vals: v, errSub: errSub, line: expr, alias: g.alias})
 	g.stmt("fails(%d, %s, lambda: %s)", len(g.exps)-1, x, expr)
 }
 
